@@ -11,7 +11,7 @@ import os
 import re
 import sys
 
-ROW = re.compile(r'^(\S+)\s+(C\d\d) exit=(\d+)\s+(\d+)s (\[.*\])\s*$')
+ROW = re.compile(r'^(\S+)\s+(C\d\d) exit=(\d+)\s+(\d+)s (\[.*?\])(?: hits=\S+)?\s*$')
 rows = {}
 for path in sys.argv[1:]:
     for ln in open(path):
